@@ -239,7 +239,7 @@ class Executor:
             return mc
         if name in GLOBAL_NAMES:
             return GLOBAL_NAMES[name]
-        return None
+        return self.module_function(name)
 
     def module_constant(self, name):
         """Module-level `name = {<str constants>}` / tuple / str / int in the REAL module source
@@ -266,6 +266,21 @@ class Executor:
                 return B(z3.BoolVal(val.value))
             if isinstance(val, ast.Constant) and isinstance(val.value, int):
                 return I(z3.IntVal(val.value))
+            if (isinstance(val, ast.Call) and isinstance(val.func, ast.Attribute) and val.func.attr == "getLogger"
+                    and isinstance(val.func.value, ast.Name) and val.func.value.id == "logging"):
+                return Py(("logger",))  # logging has no effect on the machine: calls on it are evaluated for their arguments only
+        return None
+
+    def module_function(self, name):
+        """A module-level `def name` of the REAL module that has no contract: usable by inlining its real body."""
+        from .core import load_module
+        try:
+            tree = load_module(self.modname)
+        except Exception:
+            return None
+        for st in tree.body:
+            if isinstance(st, (ast.FunctionDef, ast.AsyncFunctionDef)) and st.name == name:
+                return Py(("func", f"{self.modname}:{name}", "inline"))
         return None
 
     def ev_Name(self, node, path):
@@ -298,6 +313,9 @@ class Executor:
             me = m._find("methods", attr)
             if me is not None:
                 return [(path, BM(v, attr))]
+            real = real_method(m.name, attr)
+            if real is not None and real[1] in ("method", "static"):
+                return [(path, BM(v, attr))]
             dyn = getattr(m, "dyn_attrs", None)
             if dyn is not None and attr in dyn:
                 # instance attribute kept in the object's __dict__ (a str-keyed dict)
@@ -324,6 +342,8 @@ class Executor:
                 if attr in m.py_fields:
                     return [(path, m.py_fields[attr])]
                 return [(path, Py(("classattr", tag[1], attr)))]
+            if tag[0] == "logger":
+                return [(path, Py(("logger-method", attr)))]
             self.unsupported(node, f"attribute {attr!r} of {tag}")
         if isinstance(v, (S, T, I, B)):
             return [(path, BM(v, attr))]
@@ -911,6 +931,10 @@ class Executor:
                 return BUILTINS[tag[1]](self, path, ca, node)
             if tag[0] == "exc":
                 return [(path, Exc(tag[1], {"args": ca.pos, **ca.kw}))]
+            if tag[0] == "logger-method":
+                if tag[1] in ("debug", "info", "warning", "error", "exception", "critical", "log"):
+                    return [(path, NoneV())]  # arguments were evaluated; emitting a record does not touch the machine
+                self.unsupported(node, f"logger.{tag[1]}")
             if tag[0] == "func":
                 return self.invoke_spec(path, MethodSpec(tag[2] if len(tag) > 2 else "contract", tag[1]),
                                         None, ca, tag[1])
@@ -935,6 +959,10 @@ class Executor:
                 r = self.str_method_on_object(path, recv, name, ca, node)
                 if r is not None:
                     return r
+                real = real_method(m.name, name)
+                if real is not None and real[1] in ("method", "static"):
+                    # a helper of the real class that nobody wrote a contract for: its real body is executed in place
+                    return self.call_inline(path, real[0], recv if real[1] == "method" else None, ca, node)
                 self.unsupported(node, f"method {name} of {recv.cls}")
             return self.invoke_spec(path, me[1], recv, ca, f"{m.name}.{name}", node)
         if isinstance(recv, S):
@@ -1625,6 +1653,9 @@ class Executor:
         mods = spec.modifies if spec.modifies is not None else (self.contract.modifies if self.contract else [])
         entry = path.snapshot()
         entry.written = [ref_of(path.env[nm]) for nm in path.env if nm.startswith("__acc") and isinstance(path.env[nm], O)]
+        stack = getattr(self, "_acc_stack", [])
+        if stack and stack[-1] and not stack[-1].startswith("__acc") and isinstance(path.env.get(stack[-1]), O):
+            entry.written.append(ref_of(path.env[stack[-1]]))  # the explicit loop's own accumulator, like a comprehension's
         if spec.written is not None:
             entry.written += list(spec.written(self.s0, self.a, self._locals_ns(path)))
         # the key list of an insertion-ordered dict accumulator is written whenever the dict is
@@ -1655,6 +1686,11 @@ class Executor:
         ns = SimpleNamespace(**{k: v for k, v in path.env.items()})
         for k, v in extra.items():
             setattr(ns, k, v)
+        # `l.acc`: the collection the innermost loop accumulates into (the hidden list of a comprehension, or the one
+        # local the loop body appends/adds to), so an invariant does not depend on how the loop is spelled
+        stack = getattr(self, "_acc_stack", [])
+        if stack and stack[-1] in path.env and not hasattr(ns, "acc"):
+            ns.acc = path.env[stack[-1]]
         return ns
 
     def _check_inv(self, path, spec: LoopSpec, k: int, phase: str, entry=None, **extra):
@@ -1809,6 +1845,15 @@ class Executor:
         spec = self.loop_spec_or_trivial(st)
         k = self.loop_ids.get(id(st))
         path.assume(n >= 0)
+        if not hasattr(self, "_acc_stack"):
+            self._acc_stack = []
+        self._acc_stack.append(_loop_accumulator(st))
+        try:
+            return self._for_loop_with_invariant(st, path, spec, k, elem, n, et)
+        finally:
+            self._acc_stack.pop()
+
+    def _for_loop_with_invariant(self, st, path, spec, k, elem, n, et):
         self._check_inv(path, spec, k, "entry", i=z3.IntVal(0), n=n, seq=elem, at_entry=path.snapshot())
         entry = self._havoc_for_loop(path, st.body, spec, extra_names=_target_names(st.target))
         i = fresh("i", Int)
@@ -1856,6 +1901,17 @@ def _as_load(t):
     return t2
 
 
+def _loop_accumulator(st):
+    """Name of the single local that the loop body grows with .append/.add/.extend, if there is exactly one."""
+    names = set()
+    for b in st.body:
+        for nd in ast.walk(b):
+            if (isinstance(nd, ast.Call) and isinstance(nd.func, ast.Attribute) and nd.func.attr in ("append", "add", "extend")
+                    and isinstance(nd.func.value, ast.Name)):
+                names.add(nd.func.value.id)
+    return next(iter(names)) if len(names) == 1 else None
+
+
 def _target_names(t):
     return [n.id for n in ast.walk(t) if isinstance(n, ast.Name)]
 
@@ -1865,4 +1921,59 @@ from .core import HEAP_SORTS as HEAP_SORTS_REF  # noqa: E402
 BINOPS: Dict[tuple, Callable] = {}
 CONTAINS_HOOKS: Dict[str, Callable] = {}
 COMPREHENSION_HOOKS: list = []  # (executor, node, path, kind) -> outcomes | None
+_CLASS_INDEX = None
+
+
+def _class_index():
+    """Every top-level class of the package under check: name -> (module, ClassDef); ambiguous names are dropped."""
+    global _CLASS_INDEX
+    if _CLASS_INDEX is None:
+        import os
+        from .core import REPO, load_module
+        idx, dup = {}, set()
+        root = os.path.join(REPO, "statemachine")
+        for dp, _dn, fns in os.walk(root):
+            for fn in fns:
+                if not fn.endswith(".py"):
+                    continue
+                rel = os.path.relpath(os.path.join(dp, fn), REPO)[:-3].replace(os.sep, ".")
+                if rel.endswith(".__init__"):
+                    rel = rel[: -len(".__init__")]
+                try:
+                    tree = load_module(rel)
+                except Exception:
+                    continue
+                for st in tree.body:
+                    if isinstance(st, ast.ClassDef):
+                        if st.name in idx:
+                            dup.add(st.name)
+                        idx[st.name] = (rel, st)
+        for d in dup:
+            idx.pop(d, None)
+        _CLASS_INDEX = idx
+    return _CLASS_INDEX
+
+
+def real_method(cls_name: str, attr: str):
+    """(qualname, kind) of method `attr` of the real class named like the class model (searching its bases), if that
+    method exists and has NO contract; kind in method/static/class/property."""
+    idx = _class_index()
+    seen, stack = set(), [cls_name]
+    while stack:
+        c = stack.pop(0)
+        if c in seen or c not in idx:
+            continue
+        seen.add(c)
+        modname, cdef = idx[c]
+        for st in cdef.body:
+            if isinstance(st, (ast.FunctionDef, ast.AsyncFunctionDef)) and st.name == attr:
+                decos = [d.id if isinstance(d, ast.Name) else getattr(d, "attr", "") for d in st.decorator_list]
+                kind = "static" if "staticmethod" in decos else "class" if "classmethod" in decos else \
+                    "property" if "property" in decos else "method"
+                q = f"{modname}:{c}.{attr}"
+                if q in CONTRACTS:
+                    return None
+                return q, kind
+        stack += [b.id for b in cdef.bases if isinstance(b, ast.Name)]
+    return None
 STR_METHODS: Dict[str, Callable] = {}
